@@ -183,6 +183,7 @@ type Obj struct {
 	Paths    []int // SIngress
 
 	// Scale: spec.replicas of a workload (0: unset, 1: zero replicas, 2: three).
+	// For a service: 1 = headless (clusterIP None), 2 = type ExternalName.
 	// Ownership of pods does not depend on it; not part of the model's encoding.
 	Scale int
 
@@ -273,7 +274,15 @@ func (o *Obj) Go() metav1.Object {
 	case KPod:
 		return &corev1.Pod{ObjectMeta: m, Spec: corev1.PodSpec{NodeName: Str(o.Node)}}
 	case KService:
-		return &corev1.Service{ObjectMeta: m, Spec: corev1.ServiceSpec{Selector: o.Sel.Go()}}
+		sp := corev1.ServiceSpec{Selector: o.Sel.Go()}
+		switch o.Scale { // for a service: 1 = headless, 2 = ExternalName; which pods it selects does not depend on it
+		case 1:
+			sp.ClusterIP = corev1.ClusterIPNone
+		case 2:
+			sp.Type = corev1.ServiceTypeExternalName
+			sp.ExternalName = "example.org"
+		}
+		return &corev1.Service{ObjectMeta: m, Spec: sp}
 	case KRC:
 		t := podTemplate(o.Tmpl)
 		return &corev1.ReplicationController{ObjectMeta: m, Spec: corev1.ReplicationControllerSpec{Replicas: o.replicas(), Selector: o.Sel.Go(), Template: &t}}
